@@ -9,9 +9,11 @@ Three streams, each judged inside coqc (Run/C19Run.v):
              (property).
   tables     synthetic symbol tables fed straight to Compiler.generate_listing (arbitrary names, any
              values, unknown prefixes -> KeyError on both sides).
-  cli        real `python -m pdpy11 ... --lst` runs x output selectors: where the .lst file appears
-             (model: ListingM.cli_lst; property: beside the first output file, named after it) and
-             that its content is generate_listing()'s.
+  cli        real `python -m pdpy11 ... --lst` runs x output selectors x ways of naming the source
+             files (relative, '..', symbolic links to files and directories): where the .lst file appears
+             (model: ListingM.cli_lst; property: beside the first output file, named after it), that
+             its content is generate_listing()'s for the files under the names given, and that its
+             label addresses are where the marker bytes lie in the output file the run wrote.
 """
 import hashlib
 import os
@@ -26,28 +28,37 @@ import common as C
 import impl
 
 ID = "C19"
-PROP_FILES = ["Props/C19.v"]
+PROP_FILES = ["Props/C19.v", "Props/R_listing.v"]  # R_listing: label_is_image_address proved on the reference assembler
 RUN_FILES = ["Run/C19Run.v", "Run/C19SpecRun.v"]
 RULE = ("generated: seeded multi-file programs (1-3 linked files, 0-2 include files, possibly included twice or by two files, "
         "`.end` early, `.once`, `.link` at the start of the first file only) with labels (each followed by a unique 3-byte marker), local labels, constants of any value "
         "(boundary-biased: 0, +-1, +-2^n, +-(2^n-1) up to 2^100, equal values under different names, names differing only in case, "
         "names with '.', '$', U+017F/U+212A); synthetic symbol tables given directly to Compiler.generate_listing; "
-        "real CLI runs under 3 locale / stdio-encoding configurations x file names that are ASCII, Cyrillic, mixed-script or not UTF-8 (directory, first and second linked file, output); real CLI runs with --lst x 50 output selectors (incl. '.bin'/'.raw'/'.wav'/'.lst'/'.bk_wav' inside directory names and file stems, relative and absolute, via -o and make_xxx).  A case is non-trivial and distinct if its listing text is new and has >= 2 symbol lines, "
-        "or (cli) its (selector, program) pair is new")
+        "real CLI runs under 3 locale / stdio-encoding configurations x file names that are ASCII, Cyrillic, mixed-script or not UTF-8 (directory, first and second linked file, output); real CLI runs with --lst x 72 output selectors (incl. '.bin'/'.raw'/'.wav'/'.lst'/'.bk_wav' inside directory names and file stems, relative and absolute, via -o and make_xxx; "
+        "names whose last component is only a format word ('bin', 'BIN', 'raw', 'wav', 'lst', also as a directory), has an empty stem ('.bin', '.raw'), an empty extension ('x.', 'x.bin.') "
+        "or a mixed-case extension ('x.Bin')) x 12 ways of naming the source files on the command line (absolute, relative to the working directory, with './', '..' and '//' components, "
+        "through a symbolic link to the file -- beside it, in another directory, with a relative or absolute target, through a chain of two links -- and through a symbolic link to the "
+        "source directory; every form meets the selectors in turn); in these runs the listing is judged against the file names as given (lexical absolute form of each argument) and its "
+        "label addresses against the bytes of the first output file actually written (or of the standard output), read as 'bin' (4-byte header) or 'raw' by the documented rule.  A case is non-trivial and distinct if its listing text is new and has >= 2 symbol lines, "
+        "or (cli) its (selector, source path form, program) triple is new")
 LEVEL_TEXT = ("Coq theorems about an executable model of Compiler.generate_listing and of the --lst path derivation: the generated text is a listing "
               "in the sense of Spec/Listing.v (every ordinary symbol exactly once under its file, no local label, blocks in first-appearance order, "
               "each block sorted by (value, name), octal field reads back as the value for every integer); the checker that judges observed listings "
               "is proved sound.  The model is tied to the source by correspondence on generated programs, synthetic tables and real CLI runs, "
               "all evaluated in coqc on the implementation's own symbol table.")
 LEVEL_NOTE = ("Trusted: Coq kernel + vm_compute, Spec/Listing.v, this harness (program generator's ground truth, printing of cases), tools/impl.py, CPython. "
-              "label_is_image_address is proved from the C02 address invariant as a hypothesis (partial) and checked on the real code by marker bytes. "
+              "label_is_image_address is proved from the C02 address invariant as a hypothesis (partial) and checked on the real code by marker bytes: in the program stream against the "
+              "in-process image, in the CLI stream against the output file the run wrote (format restated in the harness: -o NAME is 'bin' iff NAME ends with '.bin' in any case, make_xxx / "
+              "--implicit-bin by their own format; a wav output holds no plain image and the in-process image stands in). The name a source file is listed under in a CLI run is, by "
+              "construction of the harness, the working directory joined with the argument and normalised lexically (symbolic links are not resolved). "
               "Print Assumptions: closed under the global context for every theorem.")
 TECHNIQUE = "Coq proof (model of generate_listing meets Spec/Listing) + model/implementation correspondence evaluated in coqc"
 ASSUME = ["strings are compared as UTF-8 byte strings (equals Python's code-point order)",
           "after a successful assembly every symbol value is an int (checked on every run)",
           "paths on the command line are ASCII (str.lower modelled on ASCII)",
           "C02's address invariant for label_is_image_address (hypothesis of the theorem; checked by markers on the real code)"]
-TRUSTED = ["tools/props/c19.py program generator: ground truth of (file, name, value) and of the first output file is by construction"]
+TRUSTED = ["tools/props/c19.py program generator: ground truth of (file, name, value) and of the first output file is by construction",
+           "tools/props/c19.py expected_format / image_of_output: which format the first output file has and how its bytes give (load address, image)"]
 
 WATCHDOG = 10
 
@@ -560,30 +571,166 @@ def sel_list():
     S.append(("make_wav-dirfmt", [], 'make_wav "../out/d.bk_wav/t.wav"\n', "out/d.bk_wav/t.wav", False))
     S.append(("make_wav-fmt-ext", [], 'make_wav "../out/t.bk_wav"\n', "out/t.bk_wav", False))
     S.append(("make_wav-fmt-stem", [], 'make_wav "../out/u.bk_wav.wav"\n', "out/u.bk_wav.wav", False))
+    # the last path component IS a format word, or has an empty stem / an empty extension / a mixed-case extension: the format of a -o file
+    # is 'bin' exactly when the name ends with ".bin" (any case), 'raw' otherwise; the listing's addresses are judged against the file written
+    S.append(("o-name-bin-rel", ["-o", "bin"], None, "cwd/bin", False))
+    S.append(("o-name-BIN-abs", ["-o", "{root}/out/BIN"], None, "out/BIN", False))
+    S.append(("o-name-Bin-reldir", ["-o", "build/Bin"], None, "cwd/build/Bin", False))
+    S.append(("o-name-raw", ["-o", "{root}/out/raw"], None, "out/raw", False))
+    S.append(("o-name-wav-rel", ["-o", "wav"], None, "cwd/wav", False))
+    S.append(("o-name-lst-rel", ["-o", "lst"], None, "cwd/lst", False))
+    S.append(("o-name-mac", ["-o", "{root}/out/mac"], None, "out/mac", False))
+    S.append(("o-hidden-bin", ["-o", "{root}/out/.bin"], None, "out/.bin", False))
+    S.append(("o-hidden-raw-rel", ["-o", ".raw"], None, "cwd/.raw", False))
+    S.append(("o-trailing-dot", ["-o", "{root}/out/x."], None, "out/x.", False))
+    S.append(("o-bin-trailing-dot", ["-o", "{root}/out/x.bin."], None, "out/x.bin.", False))
+    S.append(("o-mixed-Bin", ["-o", "{root}/out/x.Bin"], None, "out/x.Bin", False))
+    S.append(("o-mixed-bIN-rel", ["-o", "y.bIN"], None, "cwd/y.bIN", False))
+    S.append(("o-cabin-rel", ["-o", "cabin"], None, "cwd/cabin", False))
+    S.append(("o-xbin-noext", ["-o", "{root}/out/xbin"], None, "out/xbin", False))
+    S.append(("o-dir-named-bin", ["-o", "{root}/out/bin/prog"], None, "out/bin/prog", False))
+    S.append(("o-dir-named-bin-name-bin", ["-o", "{root}/out/bin/bin"], None, "out/bin/bin", False))
+    S.append(("o-dir-named-bin-rel-raw", ["-o", "bin/raw"], None, "cwd/bin/raw", False))
+    S.append(("make_raw-name-bin", [], 'make_raw "../out/bin"\n', "out/bin", False))
+    S.append(("make_bin-name-raw", [], 'make_bin "../out/raw"\n', "out/raw", False))
+    S.append(("make_bin-name-bin", [], 'make_bin "../out/bin"\n', "out/bin", False))
+    S.append(("make_raw-hidden-raw", [], 'make_raw "../out/.raw"\n', "out/.raw", False))
     return S
+
+
+def opt_outfile(argv):
+    outfile = argv[argv.index("-o") + 1] if "-o" in argv else None
+    for a in argv:
+        if a.startswith("-o") and len(a) > 2:
+            outfile = a[2:]
+    return outfile
+
+
+def expected_format(argv, make):
+    """The format of the first output file, restated from the documented rule (not read from the implementation): a -o file is 'bin' when
+    its name ends with ".bin" (any case) and 'raw' otherwise; a make_xxx file has the directive's format; --implicit-bin gives 'bin'."""
+    outfile = opt_outfile(argv)
+    if outfile is not None:
+        return "bin" if outfile.split("/")[-1].lower().endswith(".bin") else "raw"
+    if make:
+        return {"make_bin": "bin", "make_raw": "raw", "make_wav": "wav"}[make.split()[0]]
+    if "--implicit-bin" in argv:
+        return "bin"
+    return None
+
+
+def image_of_output(data, fmt, link_base):
+    """(base, image bytes) that an output file of the given format holds; None when the format keeps no plain image (wav)."""
+    if fmt == "raw":
+        return link_base, data
+    if fmt == "bin":
+        if len(data) < 4:
+            return 0, b""
+        return data[0] | (data[1] << 8), data[4:]
+    return None
+
+
+# ways of naming a source file on the command line.  The listing names the file by the absolute form of the argument as it was spelled
+# (joined to the working directory and normalised lexically), never by what a symbolic link on the way points to.
+PATH_FORMS = ["abs", "rel", "rel-dot", "abs-dotdot", "rel-dotdot", "link-file", "link-file-rel", "link-file-abs-target", "link-file-other-dir",
+              "link-dir", "link-dir-rel", "link-chain"]
+
+
+def apply_path_form(rng, form, root, prog, out_rel):
+    """-> dict(args, names, links, out_rel, truth, markers, form).  prog was generated under root/src (or root/srcl for the link-dir forms)."""
+    cwd = root + "/cwd"
+    fnames = []
+    for fn, _ in prog["files"]:
+        if fn not in fnames:
+            fnames.append(fn)
+    links, ren, arg_of = [], {}, {}
+    if form in ("link-dir", "link-dir-rel"):
+        # the whole program lives in src/, and is named through the directory link srcl -> src
+        links.append(("srcl", "src"))
+        for fn in fnames:
+            arg_of[fn] = fn if form == "link-dir" else os.path.relpath(fn, cwd)
+    else:
+        chosen = [fn for fn in fnames if rng.random() < 0.7] or [rng.choice(fnames)]
+        texts = dict(prog["files"])
+        for fn in fnames:
+            f = form if fn in chosen else "abs"
+            d, b = os.path.dirname(fn), os.path.basename(fn)
+            if f == "link-file-other-dir" and ".include" in texts[fn]:
+                f = "link-file"          # a relative .include is looked up beside the name given: keep the link beside its target
+            if f == "abs":
+                arg_of[fn] = fn
+            elif f == "rel":
+                arg_of[fn] = os.path.relpath(fn, cwd)
+            elif f == "rel-dot":
+                arg_of[fn] = "./" + os.path.relpath(fn, cwd)
+            elif f == "abs-dotdot":
+                arg_of[fn] = root + "/out/../src/./" + b
+            elif f == "rel-dotdot":
+                arg_of[fn] = "../out/d.ir/../../src//" + b
+            elif f in ("link-file", "link-file-rel", "link-file-abs-target", "link-chain"):
+                ln = d + "/ln-" + b
+                if f == "link-chain":
+                    links.append((os.path.relpath(d + "/hop-" + b, root), b))
+                    links.append((os.path.relpath(ln, root), "hop-" + b))
+                else:
+                    links.append((os.path.relpath(ln, root), fn if f == "link-file-abs-target" else b))
+                ren[fn] = ln
+                arg_of[fn] = os.path.relpath(ln, cwd) if f == "link-file-rel" else ln
+            elif f == "link-file-other-dir":
+                ln = root + "/links/" + b
+                links.append((os.path.relpath(ln, root), "../src/" + b))
+                ren[fn] = ln
+                arg_of[fn] = ln
+    names = [ren.get(fn, fn) for fn, _ in prog["files"]]
+    args = [arg_of[fn] for fn, _ in prog["files"]]
+    for a, n in zip(args, names):
+        # the name by construction equals the lexical absolute form of the argument
+        assert os.path.normpath(os.path.join(cwd, a)) == n, (a, n)
+    first = prog["files"][0][0]
+    if out_rel is not None and out_rel.startswith("src/"):
+        # outputs beside the first source file follow the name it was given by
+        assert form not in ("link-dir", "link-dir-rel")
+        if first in ren:
+            rest = out_rel[4:]
+            stem = os.path.basename(ren[first])[:-4]
+            if rest.startswith("m0"):
+                rest = stem + rest[2:]
+            out_rel = os.path.relpath(os.path.dirname(ren[first]), root) + "/" + rest
+    return {"args": args, "names": names, "links": links, "out_rel": out_rel, "form": form,
+            "truth": [(ren.get(f, f), n, v) for f, n, v in prog["truth"]],
+            "markers": [(ren.get(f, f), n, m) for f, n, m in prog["markers"]]}
 
 
 def run_cli_case(job):
     """job: dict(root, files{rel: text}, infiles[rel], argv, cwd). Returns observed lst files and contents."""
     root = job["root"]
+    for d in ("cwd", "out", "out/d.ir", "src", "links"):
+        os.makedirs(os.path.join(root, d), exist_ok=True)
+    for ln, target in job.get("links", []):
+        if not os.path.lexists(os.path.join(root, ln)):
+            os.symlink(target, os.path.join(root, ln))
     for rel, text in job["files"].items():
         p = os.path.join(root, rel)
         os.makedirs(os.path.dirname(p), exist_ok=True)
         with open(p, "w", encoding="utf-8") as f:
             f.write(text)
-    for d in ("cwd", "out", "out/d.ir"):
-        os.makedirs(os.path.join(root, d), exist_ok=True)
     if job.get("out_rel"):
         os.makedirs(os.path.dirname(os.path.join(root, job["out_rel"])), exist_ok=True)
     env = dict(os.environ)
     env["PYTHONPATH"] = C.REPO
     env["PYTHONHASHSEED"] = "0"
-    argv = [C.PY, "-m", "pdpy11"] + [os.path.join(root, r) for r in job["infiles"]] + job["argv"] + ["--lst"]
+    args = job.get("args") or [os.path.join(root, r) for r in job["infiles"]]
+    argv = [C.PY, "-m", "pdpy11"] + args + job["argv"] + ["--lst"]
+    out_bytes = b""
     try:
         p = subprocess.run(argv, cwd=os.path.join(root, "cwd"), env=env, stdout=subprocess.PIPE, stderr=subprocess.PIPE, timeout=60)
-        rc, err = p.returncode, p.stderr.decode("utf-8", "replace")[-400:]
+        rc, err, out_bytes = p.returncode, p.stderr.decode("utf-8", "replace")[-400:], p.stdout
     except subprocess.TimeoutExpired:
         rc, err = "timeout", ""
+    first_output = None
+    if job.get("out_rel") and os.path.isfile(os.path.join(root, job["out_rel"])):
+        with open(os.path.join(root, job["out_rel"]), "rb") as f:
+            first_output = f.read()
     found = {}
     allfiles = []
     for dp, _, fns in os.walk(root):
@@ -593,7 +740,7 @@ def run_cli_case(job):
             if fn.endswith(".lst"):
                 with open(full, encoding="utf-8") as f:
                     found[os.path.relpath(full, root)] = f.read()
-    return {"rc": rc, "stderr": err, "lst": found, "files": sorted(allfiles)}
+    return {"rc": rc, "stderr": err, "lst": found, "files": sorted(allfiles), "stdout_bytes": out_bytes, "first_output": first_output}
 
 
 def cli_observe(j, r):
@@ -601,10 +748,7 @@ def cli_observe(j, r):
     output argument was relative or the output went to stdout, absolute otherwise"""
     root = j["root"]
     cwd = os.path.join(root, "cwd")
-    outfile = j["argv"][j["argv"].index("-o") + 1] if "-o" in j["argv"] else None
-    for a in j["argv"]:
-        if a.startswith("-o") and len(a) > 2:
-            outfile = a[2:]
+    outfile = opt_outfile(j["argv"])
     relative = j["stdout"] or (outfile is not None and not outfile.startswith("/"))
     obs = content = None
     for rel, content in r["lst"].items():
@@ -620,10 +764,16 @@ def cli_jobs(rng, names, tier, tmp):
     sels = sel_list()
     reps = 2 if tier == "quick" else 8
     jobs = []
+    shift = rng.randrange(len(PATH_FORMS))
     for rep_i in range(reps):
-        for sname, argv, make, out_rel, to_stdout in sels:
+        for k, (sname, argv, make, out_rel, to_stdout) in enumerate(sels):
             root = tempfile.mkdtemp(prefix="c-", dir=tmp)
-            prog = gen_program(rng, names, root=root + "/src")
+            # every way of naming the source files meets the selectors in turn (a different one in each repetition)
+            form = PATH_FORMS[(k + shift + 5 * rep_i) % len(PATH_FORMS)]
+            if form.startswith("link-dir") and out_rel is not None and out_rel.startswith("src/"):
+                form = "link-file"       # an output beside the sources would be seen under src/ by the directory walk
+            prog = gen_program(rng, names, root=root + ("/srcl" if form.startswith("link-dir") else "/src"))
+            pf = apply_path_form(rng, form, root, prog, out_rel)
             files = {os.path.relpath(fn, root): text for fn, text in prog["files"]}
             for fn, text in prog["fs"].items():
                 files[os.path.relpath(fn, root)] = text
@@ -632,7 +782,9 @@ def cli_jobs(rng, names, tier, tmp):
                 # the directive goes at the top of the first file (make_xxx emits nothing, so a following .link is still legal)
                 files[infiles[0]] = make + files[infiles[0]]
             jobs.append({"root": root, "files": files, "infiles": infiles, "argv": [a.replace("{root}", root) for a in argv],
-                         "sel": sname, "out_rel": out_rel, "stdout": to_stdout, "prog": prog})
+                         "sel": sname, "out_rel": pf["out_rel"], "stdout": to_stdout, "prog": prog, "make": make,
+                         "args": pf["args"], "names": pf["names"], "links": pf["links"], "form": form,
+                         "truth": pf["truth"], "markers": pf["markers"]})
     return jobs
 
 
@@ -1003,16 +1155,22 @@ def explore(rep, br, tier, seed, spec_only=False):
         with ThreadPoolExecutor(max_workers=8) as ex:
             results = list(ex.map(run_cli_case, jobs))
         # the same sources in process: emitted files, symbol table, listing
-        inproc = impl.pmap("assemble", [(([(os.path.join(j["root"], r), j["files"][r]) for r in j["infiles"]],),
+        # (under the names the files were given by: the lexical absolute form of each argument; include files are read from disk)
+        inproc = impl.pmap("assemble", [(([(n, j["files"][r]) for n, r in zip(j["names"], j["infiles"])],),
                                          {"want_symbols": True, "want_listing": True, "want_emitted": True}) for j in jobs])
         cterms, lterms, cmeta, lmeta = [], [], [], []
         for j, r, o in zip(jobs, results, inproc):
             rep.add_eval()
             rep.count("cli:" + j["sel"])
+            rep.count("cli-source-path:" + j["form"])
             root = j["root"]
             inp = {"kind": "cli", "selector": j["sel"], "argv": [a.replace(root, "<root>") for a in j["argv"]] + ["--lst"],
                    "files": {k: v for k, v in j["files"].items()}, "infiles": j["infiles"], "cwd": "<root>/cwd",
-                   "out_rel": j["out_rel"], "stdout": j["stdout"]}
+                   "out_rel": j["out_rel"], "stdout": j["stdout"], "source_path_form": j["form"],
+                   "source_args": [a.replace(root, "<root>") for a in j["args"]], "source_names": [a.replace(root, "<root>") for a in j["names"]],
+                   "symlinks": j["links"], "make": j["make"], "link_base": j["prog"]["base"],
+                   "truth": [[f.replace(root, "<root>"), n, v] for f, n, v in j["truth"]],
+                   "markers": [[f.replace(root, "<root>"), n, m] for f, n, m in j["markers"]]}
             if r["rc"] != 0 or o["outcome"] != "ok":
                 rep.disagree("CLI run or its in-process twin failed (harness ground truth unusable)", inp,
                              impl={"rc": r["rc"], "stderr": r["stderr"], "inproc": o["outcome"], "diags": [d[:2] for d in o["diags"]]})
@@ -1027,21 +1185,35 @@ def explore(rep, br, tier, seed, spec_only=False):
             emitted = None
             if o.get("emitted"):
                 emitted = (o["emitted"][0][0], o["emitted"][0][1])
-            infile = os.path.join(root, j["infiles"][0])
+            infile = j["names"][0]
             sub = lambda s: None if s is None else s.replace(root, "/R")
             cterms.append(ccase_term(sub(outfile), None if emitted is None else (emitted[0], sub(emitted[1])), "--implicit-bin" in j["argv"],
                                      sub(infile), sub(ot), j["stdout"], sub(obs)))
             cmeta.append((inp, sub(obs), sub(ot)))
-            rep.nontrivial(("C", j["sel"], hashlib.sha1(repr(sorted(j["files"].items())).encode()).hexdigest()[:12]))
+            rep.nontrivial(("C", j["sel"], j["form"], hashlib.sha1(repr(sorted(j["files"].items())).encode()).hexdigest()[:12]))
             if content is not None:
                 if content != o.get("listing"):
-                    rep.violate("cli-content:" + j["sel"], "the .lst file's content is not Compiler.generate_listing()'s text", inp,
-                                impl=content, expected=o.get("listing"))
+                    rep.violate("cli-content:" + j["sel"] + ":" + j["form"],
+                                "the .lst file's content is not Compiler.generate_listing()'s text for the source files under the names they were given by", inp,
+                                impl=content, expected=o.get("listing"), replay="./check C19 --replay <this file>")
                 tbl = [(k, v) for k, _, v in o["symbols"]]
                 pm = sorted((int(k), f) for k, f in o["prefix_files"].items())
                 p = j["prog"]
-                lterms.append(lcase_term(tbl, pm, p["truth"], p["markers"], o["base"], list(bytes.fromhex(o["code"])), content))
-                lmeta.append((inp, content, p))
+                # "the image" is what the run wrote: the bytes of the first output file (or of the standard output), read in the format the
+                # selector calls for; only where that format holds no plain image (wav), or nothing is written, the in-process image stands in
+                fmt = expected_format(j["argv"], j["make"])
+                data = r["stdout_bytes"] if j["stdout"] else r["first_output"]
+                on_disk = None if data is None else image_of_output(data, fmt, p["base"])
+                if on_disk is None:
+                    base_i, img_i = o["base"], bytes.fromhex(o["code"])
+                    rep.count("cli-image:in-process(" + str(fmt) + ")")
+                else:
+                    base_i, img_i = on_disk
+                    rep.count("cli-image:output-file-" + fmt + ("(stdout)" if j["stdout"] else ""))
+                inp["image_judged"] = {"format": fmt, "from": "in-process" if on_disk is None else ("stdout" if j["stdout"] else "first output file"),
+                                       "base": base_i, "bytes": img_i.hex()[:400]}
+                lterms.append(lcase_term(tbl, pm, j["truth"], j["markers"], base_i, list(img_i), content))
+                lmeta.append((inp, content, dict(p, truth=j["truth"])))
         if cmeta:
             rep.sample({"cli": cmeta[0][0]["argv"], "selector": cmeta[0][0]["selector"], "lst_file": cmeta[0][1], "first_output": cmeta[0][2]})
         codes = [c for sh in C.run_case_files(ID + "/cli", req, "Open Scope N_scope.", C.shard(cterms, 200), judge_expr=judge_c, opens=opens) for c in sh]
@@ -1056,8 +1228,10 @@ def explore(rep, br, tier, seed, spec_only=False):
             if code & 1:
                 rep.disagree("Model.ListingM.generate_listing vs the content of the .lst file of a CLI run", inp, impl=content)
             if code & 2:
-                rep.violate("cli-listing:" + inp["selector"], "the .lst file of a CLI run is not the listing of the program's ordinary symbols (judged in Coq)",
-                            inp, impl=content, expected=py_expected(p["truth"]))
+                rep.violate("cli-listing:" + inp["selector"] + ":" + inp["source_path_form"],
+                            "the .lst file of a CLI run is not the listing of the program's ordinary symbols under the names the source files were given by, "
+                            "or a listed label address is not where the bytes after that label lie in the output file written (judged in Coq: check_listing / check_image)",
+                            inp, impl=content, expected=py_expected(p["truth"]), replay="./check C19 --replay <this file>")
         locale_stream(rep, rng, names, tier, tmp, req, opens, judge_l, judge_c)
     finally:
         shutil.rmtree(tmp, ignore_errors=True)
@@ -1143,8 +1317,12 @@ def replay(data):
         os.makedirs("/tmp/c19", exist_ok=True)
         root = tempfile.mkdtemp(prefix="replay-", dir="/tmp/c19")
         try:
+            un = lambda a: a.replace("<root>", root)
             j = {"root": root, "files": inp["files"], "infiles": inp["infiles"], "out_rel": inp["out_rel"], "stdout": inp["stdout"],
-                 "argv": [a.replace("<root>", root) for a in inp["argv"] if a != "--lst"]}
+                 "argv": [un(a) for a in inp["argv"] if a != "--lst"]}
+            if "source_args" in inp:
+                j.update(args=[un(a) for a in inp["source_args"]], links=[tuple(x) for x in inp["symlinks"]])
+            names = [un(a) for a in inp.get("source_names", [os.path.join("<root>", x) for x in inp["infiles"]])]
             r = run_cli_case(j)
             print("rc:", r["rc"], "files now:", r["files"])
             if r["rc"] != 0 or len(r["lst"]) > 1:
@@ -1152,12 +1330,25 @@ def replay(data):
             outfile, obs, ot, content = cli_observe(j, r)
             sub = lambda s: None if s is None else s.replace(root, "/R")
             print(".lst file:", sub(obs), " first output file:", sub(ot))
-            term = ccase_term(sub(outfile), None, "--implicit-bin" in j["argv"], "/R/" + inp["infiles"][0], sub(ot), inp["stdout"], sub(obs))
+            term = ccase_term(sub(outfile), None, "--implicit-bin" in j["argv"], sub(names[0]), sub(ot), inp["stdout"], sub(obs))
             code = C.run_case_files(ID + "/replay", "Run.C19SpecRun", "Open Scope N_scope.", [[term]], judge_expr="map spec_cli cases", opens=opens)[0][0]
             ok = not (code & 2)
             if ok and content is not None:
-                o = impl.assemble([(os.path.join(root, x), inp["files"][x]) for x in inp["infiles"]], want_listing=True)
+                o = impl.assemble([(n, inp["files"][x]) for n, x in zip(names, inp["infiles"])], want_symbols=True, want_listing=True)
+                print(".lst content:\n" + content)
                 ok = o.get("listing") == content
+                if ok and "truth" in inp:
+                    truth = [(un(f), n, v) for f, n, v in inp["truth"]]
+                    markers = [(un(f), n, m) for f, n, m in inp["markers"]]
+                    fmt = expected_format(j["argv"], inp.get("make"))
+                    data = r["stdout_bytes"] if inp["stdout"] else r["first_output"]
+                    on_disk = None if data is None else image_of_output(data, fmt, inp["link_base"])
+                    base_i, img_i = (o["base"], bytes.fromhex(o["code"])) if on_disk is None else on_disk
+                    print("image judged: format", fmt, "base", oct(base_i), "bytes", bytes(img_i).hex())
+                    term = lcase_term([(k, v) for k, _, v in o["symbols"]], sorted((int(k), f) for k, f in o["prefix_files"].items()), truth, markers,
+                                      base_i, list(img_i), content)
+                    code = C.run_case_files(ID + "/replay", "Run.C19SpecRun", "Open Scope N_scope.", [[term]], judge_expr="map spec_listing cases", opens=opens)[0][0]
+                    ok = not (code & 2)
             return ok
         finally:
             shutil.rmtree(root, ignore_errors=True)
@@ -1167,11 +1358,13 @@ def replay(data):
 # --- translated small functions (tools/gens/gen_pure.py): Props/T_listing.v proves the regenerated Python functions
 # equal to the hand models this property's theorems are about; explore_t cross-checks the translator itself
 import t_check  # noqa: E402
-PROP_FILES = PROP_FILES + ["Props/T_listing.v"]
-RUN_FILES = RUN_FILES + ["Run/TRunListing.v"]
+import t_check3  # noqa: E402  (tools/gens/gen_pure3.py: the whole of Compiler.generate_listing regenerated from the AST)
+PROP_FILES = PROP_FILES + ["Props/T_listing.v", "Props/T_listing2.v"]
+RUN_FILES = RUN_FILES + ["Run/TRunListing.v", "Run/TRun3.v"]
 _explore_without_t = explore
 
 
 def explore(rep, br, tier, seed):
     _explore_without_t(rep, br, tier, seed)
     t_check.explore_t(rep, tier, seed, pid=ID, only=["listing"])
+    t_check3.explore_listing3(rep, tier, seed, pid=ID)
